@@ -30,9 +30,10 @@ PARTIAL, by nature and by finding:
   is FALSE of the code as it is: `d25_counterexample` (an instance released inside a living process deletes the files
   of its retained checkpoint), `d34_counterexample` (after a rescale-out a table is deleted although another running
   instance, whose key range does not overlap it, still lists it), `d50_counterexample` (a same-directory reopen drops
-  the document entries of older retained checkpoints), `d63_counterexample` (a background write of an instance dropped
-  inside a living process lands on a table file name the reopened instance of the same directory uses). All four are
-  open findings (D25, D34, D50, D63).
+  the document entries of older retained checkpoints). These are open findings (D25, D34, D50). `d63_counterexample`
+  keeps the old D63 behaviour (a background write of a dropped instance landing on a table file name the reopened
+  instance uses) as a regression witness; the code now quiesces the previous instance
+  (`previous_instance_quiesced_before_reopen`).
 * for ALL histories (any number of instances, restores, rescales, releases) the theorems
   `table_file_removed_only_by_justified_collect`, `error_means_keep` and
   `wal_file_removed_only_by_retention_or_overwrite` say who can remove a file and why; `wal_gc` is the exact file
@@ -74,8 +75,9 @@ any earlier instance, not necessarily the newest), when no other instance is run
 file referenced by a job-retained checkpoint of any generation and every table of the running instance's level list
 is in the file store.
 Scope (`inScopeL`), i.e. what remains excluded: an instance released inside a living process (D25: its objects die
-while a successor uses the files; D63: a background write of the previous instance that is still in flight lands
-after the directory was reopened — the previous instance must be quiesced before a reopen); several instances alive at once and restores from several handles (rescale;
+while a successor uses the files); a background write of the previous instance landing after the directory was
+reopened (`lateWrite`, the old D63 behaviour) is excluded too, but that is a rule of the code now:
+`previous_instance_quiesced_before_reopen`; several instances alive at once and restores from several handles (rescale;
 D34: holders whose key range does not overlap a table are never consulted); cleanups run by a dead process. -/
 theorem no_needed_file_deleted_lineage_partial (range : KGRange) (nbrs : List KGRange) (as : List Act) (s : State)
     (h : runL (init1 range nbrs) as = some s) : ∀ f ∈ needed s, f ∈ s.files := by
@@ -316,7 +318,13 @@ example : decision ⟨0, 4⟩ ⟨"t", 2, 5⟩ [(⟨4, 8⟩, .no)] = .delete ∧
 
 /-! ## the unrestricted statement is false of the code as it is (open findings) -/
 
-/-- D63: the operator is redeployed inside a living process. Instance 0 is dropped (`release`) while one of its
+/-- D63, repaired (f9820ca): `Operator.HandleDeploy` closes the previous database before `dkv.Open`, and `DB.Close`
+waits for every flush and compaction the instance enqueued — read from the source on every run (hard facts
+`c09DeployClosesFirst`, `c09CloseWaits`). This is what makes `lateWrite` (below: the old behaviour) impossible and
+justifies its exclusion from the scopes of the global theorems. -/
+theorem previous_instance_quiesced_before_reopen : quiesced = true := by decide
+
+/-- D63, the OLD behaviour (regression witness): the operator is redeployed inside a living process. Instance 0 is dropped (`release`) while one of its
 compactions is still writing; instance 1 is opened from checkpoint 1 in the same directory and flushes table "t1" —
 the name instance 0's numbering had reserved for its compaction output. When that write lands, the live table "t1" of
 the running instance 1 is overwritten. -/
